@@ -253,7 +253,14 @@ func init() {
 				"random configurations draw both orders. Period 1 excluded (StochRSI undefined)",
 			Default: Cfg{I: []int{momentum.DefaultStochasticRsiPeriod}, F: []float64{sm.DefaultStochasticRsiStrategyBuyAt, sm.DefaultStochasticRsiStrategySellAt}},
 			Rand: func(r *gen.Rand) Cfg {
-				return Cfg{I: []int{r.Range(2, 12)}, F: []float64{r.FRange(0.15, 0.85), r.FRange(0.15, 0.85)}}
+				f := []float64{r.FRange(0.15, 0.85), r.FRange(0.15, 0.85)}
+				switch r.Intn(6) { // a level outside [0,1] switches that side off
+				case 0:
+					f[1] = r.PickF(1.5, 2, 80)
+				case 1:
+					f[0] = r.PickF(-0.3, -1)
+				}
+				return Cfg{I: []int{r.Range(2, 12)}, F: f}
 			},
 			New: func(c Cfg) strategy.Strategy {
 				if c.I[0] == momentum.DefaultStochasticRsiPeriod && c.F[0] == sm.DefaultStochasticRsiStrategyBuyAt && c.F[1] == sm.DefaultStochasticRsiStrategySellAt {
